@@ -236,7 +236,10 @@ def check(r) -> list[Fail]:
             try:
                 with warnings.catch_warnings():
                     warnings.simplefilter("ignore")
-                    jobmap(job, src, dst, cache_dir=cache_dir, scratch_dir=scratch, n_workers=4, kwargs={"planroot": planroot, "arg": arg, "broken": tuple(broken), "farg": farg, "earg": earg}, progress=False, log_level="critical", **({"strict_hash": False} if run.get("lax") else {}))
+                    jobmap(job, src, dst, cache_dir=cache_dir, scratch_dir=scratch, n_workers=[4, 1, 2, 4][ri % 4 if r.get("posargs") else 0],
+                           # job arguments handed over positionally (args=) in some histories, by keyword in the others
+                           **({"args": (planroot, arg), "kwargs": {"broken": tuple(broken), "farg": farg, "earg": earg}} if r.get("posargs") else
+                              {"kwargs": {"planroot": planroot, "arg": arg, "broken": tuple(broken), "farg": farg, "earg": earg}}), progress=False, log_level="critical", **({"strict_hash": False} if run.get("lax") else {}))
             except Exception as e:
                 s = exc_sig(e)
                 if s is None:
@@ -329,6 +332,7 @@ def classify(r):
         lab.append("only_env_value_changes_somewhere")
     if any(run.get("lax") for run in r["runs"]):
         lab.append("strict_hash_off_somewhere")
+    lab.append("job_args=positional" if r.get("posargs") else "job_args=keyword")
     if r["n_foreign"]:
         lab.append("foreign_destination_keys")
     if r["pre_source_keys"]:
@@ -355,11 +359,12 @@ def strat(tier):
         "items": st.lists(item, min_size=2, max_size=4 if tier == "quick" else 5),
         "pre_source_keys": st.lists(st.integers(0, 9), max_size=2), "n_foreign": st.sampled_from([0, 0, 1, 2]),
         "runs": st.lists(run, min_size=2, max_size=3 if tier == "quick" else 4),
+        "posargs": st.booleans(),
     })
 
 
 LEGS = [
-    Leg("hist", check, classify, strategy=strat, n={"quick": 32, "thorough": 600}, shards={"quick": 16, "thorough": 16}, timeout={"quick": 900, "thorough": 14000},
+    Leg("hist", check, classify, strategy=strat, n={"quick": 48, "thorough": 600}, shards={"quick": 16, "thorough": 16}, timeout={"quick": 900, "thorough": 14000},
         rule="generated histories: 2-4/5 items (single molecules or ensembles of 1-3 conformers) with per-unit plans {ok, fail, ok at 2nd/3rd attempt, omit return file, first (unnamed) command fails always / once}, 2-3/4 jobmap runs whose arguments change the command line, only the content of an input file, or only the value of an environment variable (all must change the hash), "
              "0-2 pre-populated source keys, 0-2 foreign destination keys, cache events (delete one output, copy another input's output into a slot) between runs, optionally a fresh empty destination with the old cache directory, runs in which the program of some unit cannot be started (the runner dies before writing an output), strict (needs return file) and lenient (stdout only) post-processors, strict_hash on (default) / off per run, "
              "single and vectorised jobs; every job is a real _molli_run launch; evaluations = jobmap runs; non-trivial = a rerun after a failure, or an argument change with a populated cache"),
